@@ -714,6 +714,32 @@ func randomConnected(r *rand.Rand, n int) [][2]int {
 	}
 }
 
+// sparse connected graph: a random spanning tree plus 0..2 extra edges (tails, rings with tails, long detours)
+func randomSparse(r *rand.Rand, n int) [][2]int {
+	edges := [][2]int{}
+	has := map[[2]int]bool{}
+	perm := r.Perm(n)
+	for k := 1; k < n; k++ {
+		a, b := perm[k], perm[r.Intn(k)]
+		if a > b {
+			a, b = b, a
+		}
+		edges = append(edges, [2]int{a, b})
+		has[[2]int{a, b}] = true
+	}
+	for x := r.Intn(3); x > 0; x-- {
+		a, b := r.Intn(n), r.Intn(n)
+		if a > b {
+			a, b = b, a
+		}
+		if a != b && !has[[2]int{a, b}] {
+			edges = append(edges, [2]int{a, b})
+			has[[2]int{a, b}] = true
+		}
+	}
+	return edges
+}
+
 // all labelled connected graphs on n nodes
 func allConnected(n int) [][][2]int {
 	all := [][2]int{}
@@ -851,7 +877,11 @@ func TestTrace(t *testing.T) {
 			default:
 				nn = 6
 			}
-			one(fmt.Sprintf("rand%d", nn), nn, randomConnected(r, nn), 2+r.Intn(2))
+			if c%2 == 0 || nn < 4 {
+				one(fmt.Sprintf("rand%d", nn), nn, randomConnected(r, nn), 2+r.Intn(2))
+			} else {
+				one(fmt.Sprintf("sparse%d", nn), nn, randomSparse(r, nn), 2+r.Intn(2))
+			}
 		}
 	}
 	_ = table.Vf18Entry{}
